@@ -74,8 +74,17 @@ struct IVal {
   explicit operator uint64_t() const { return v; }
 };
 inline uint64_t keyval(const IKey &k) { return k.v; } // found by ADL from the templates in access.hh
+// a different type that hashes and compares consistently with IKey (heterogeneous lookup, C16)
+struct Probe { uint64_t v; };
+inline uint64_t keyval(const Probe &p) { return p.v; }
+struct HEq {
+  template <class A, class B> bool operator()(const A &a, const B &b) const {
+    if (keyval(a) == g_poison || keyval(b) == g_poison) throw EqThrow();
+    return keyval(a) == keyval(b);
+  }
+};
 
-using Tbl = libcuckoo::cuckoohash_map<IKey, IVal, VHash, std::equal_to<IKey>, VAlloc<std::pair<const IKey, IVal>>, VH_S>;
+using Tbl = libcuckoo::cuckoohash_map<IKey, IVal, VHash, HEq, VAlloc<std::pair<const IKey, IVal>>, VH_S>;
 using LT = Tbl::locked_table;
 using Abs = std::map<uint64_t, uint64_t>;
 
@@ -126,6 +135,38 @@ static std::string run_op(Tbl &t, std::unique_ptr<LT> &lt, const OpSpec &o) {
     if (o.kind == "ups") return t.upsert(IKey(o.a), [&](IVal &v) { v.v += o.b; }, o.b) ? "1" : "0";
     if (o.kind == "upsthrow") return t.upsert(IKey(o.a), [&](IVal &v) { v.v += o.b; throw EqThrow(); }, o.b) ? "1" : "0";
     if (o.kind == "erase") return t.erase(IKey(o.a)) ? "1" : "0";
+    // C16: arguments passed as rvalues of move-tracking types; report the result and whether each was moved from
+    if (o.kind == "insmv" || o.kind == "ioamv" || o.kind == "upsmv" || o.kind == "ltinsmv") {
+      IKey kk(o.a); IVal vv(o.b);
+      bool r;
+      if (o.kind == "insmv") r = t.insert(std::move(kk), std::move(vv));
+      else if (o.kind == "ioamv") r = t.insert_or_assign(std::move(kk), std::move(vv));
+      else if (o.kind == "upsmv") r = t.upsert(std::move(kk), [&](IVal &x) { x.v += 1; }, std::move(vv));
+      else { if (!lt) return "nolt"; r = lt->insert(std::move(kk), std::move(vv)).second; }
+      bool km = R.is_husk(&kk), vm = R.is_husk(&vv);
+      std::string res = std::string(r ? "1" : "0") + " moved=" + (km ? "1" : "0") + "," + (vm ? "1" : "0");
+      // contract: consumed exactly when inserted (insert_or_assign assigns from the value on a duplicate: it may move it)
+      bool okc = (km == r) && (o.kind == "ioamv" ? (r ? vm : true) : vm == r);
+      return okc ? res : "ARGS " + res + " (arguments must be consumed exactly when the call inserts)";
+    }
+    // C16: lookups through a compatible non-key type must agree with key_type lookups and construct no key
+    if (o.kind == "findp" || o.kind == "erasep" || o.kind == "updp" || o.kind == "containsp") {
+      // what key_type itself says (reference for the agreement clause)
+      bool present; uint64_t pv = 0;
+      { IVal tmp; present = t.find(IKey(o.a), tmp); pv = tmp.v; }
+      long c0 = R.constructed;
+      std::string res, ref;
+      IVal out;
+      if (o.kind == "findp") { bool f = t.find(Probe{o.a}, out); res = f ? std::to_string(out.v) : "-"; }
+      else if (o.kind == "containsp") res = t.contains(Probe{o.a}) ? "1" : "0";
+      else if (o.kind == "updp") res = t.update_fn(Probe{o.a}, [&](IVal &x) { x.v = o.b; }) ? "1" : "0";
+      else res = t.erase(Probe{o.a}) ? "1" : "0";
+      long made = R.constructed - c0 - 1; // `out` itself
+      std::string want = o.kind == "findp" ? (present ? std::to_string(pv) : "-") : (present ? "1" : "0");
+      if (res != want) return "HETERO " + res + " (a lookup through a compatible type answers " + res + ", through key_type " + want + ")";
+      if (made > 0) return "HETERO " + res + " (a lookup through a compatible type constructed " + std::to_string(made) + " key/value object(s))";
+      return res;
+    }
     if (o.kind == "find") { IVal v; return t.find(IKey(o.a), v) ? std::to_string(v.v) : "-"; }
     if (o.kind == "upd") return t.update(IKey(o.a), IVal(o.b)) ? "1" : "0";
     if (o.kind == "rehash") return t.rehash(o.a) ? "1" : "0";
